@@ -2,7 +2,7 @@
 
 Every labelled digraph on n <= 3 nodes with self-loops (2 + 16 + 512) and on 4 nodes without self-loops
 (4 096; thorough: with self-loops, 65 536) is realised by harness disciplines and handed to the real
-``CouplingStructure`` / ``DependencyGraph`` / ``MDOChain`` / ``MDAChain`` / ``MDOInitializationChain``:
+``CouplingStructure`` / ``DependencyGraph`` / ``MDOChain`` / ``MDOParallelChain`` / ``MDAChain`` / ``MDOInitializationChain``:
 
 * node i reads ``x{i}`` and writes ``o{i}`` (io="full"; io="bare" drops them, so an isolated node has empty
   grammars); an edge (i, j) is a variable in outputs(i) & inputs(j): ``y{i}_{j}`` (vars="edge") or one variable
@@ -33,6 +33,21 @@ Oracles (all independent of networkx / gemseo):
   MDAGaussSeidel only ``q{i}`` because its input grammar omits what an earlier member produces; it must NOT be wrapped
   again when alone, and must be grouped like any discipline when it lies on a cycle with other nodes); the data
   oracle is the same single dense solve over all harness halves.
+* MDAChain settings axis (execution part, ``subcs``): {default, user-given ``sub_coupling_structures``}.  The user-given list is
+  what the documentation of the setting asks for: one ``CouplingStructure`` per group that needs an inner MDA (membership from the
+  independent SCC oracle: a group of several nodes or a lone self-coupled discipline), in the order in which the execution
+  sequence of a ``CouplingStructure`` of the same listing visits them.  Enumerated over every graph on <= 3 nodes with at least one
+  such group (quick: every listing order when there are several groups and a weakly coupled node, see ``cases`` for the rest;
+  thorough: every listing order of every graph, + Gauss-Seidel / parallel stages / equal names / weak nodes that are themselves
+  nested MDAs and get no structure) and over the *template* family on 4 to 6 nodes: every labelled DAG on 3 template
+  nodes x every typing of the template nodes as W (weakly coupled discipline) / S (self-coupled discipline) / P (pair a <-> b)
+  with >= 2 groups needing an MDA and >= 1 pair, so that weak groups come before / between / after the MDAs in the listing as well
+  as in the schedule.  The oracle is unchanged: the same data as the single dense solve.
+* Process kind axis over *independent* disciplines (part ``par``): n <= 3 nodes, node i reads ``x{i}`` (or all read ``x0``) and
+  writes ``o{i}`` plus any subset of the shared names {``d0``, ``d1``} (4**n assignments: an output name may have 1, 2 or 3 producers
+  giving different values) x every listing order x {MDOChain, MDOParallelChain (threads / deep copies / one worker; thorough,
+  <= 2 nodes: processes), MDAChain with sequential and with parallel stages}.  Reference: every body evaluated once on the inputs (the whole system at once),
+  merged with the priority of the process (see the oracle boundary below); each body runs exactly once.
 * ``order_disciplines_from_default_inputs`` / ``MDOInitializationChain``: success exactly when an independent
   fixed-point computation says every discipline can be initialised, the order is then executable, otherwise
   ValueError; the chain returns exactly what the harness obtains by running the bodies in that order.
@@ -50,6 +65,14 @@ Oracle boundaries (rule 1):
 * ``order_disciplines_from_default_inputs(raise_error=False)``: the returned names must contain every input
   that nobody can provide and only inputs of disciplines that cannot be initialised (whether inputs that have
   a default value belong to the list is left open).
+* an output name with several producers (part ``par``; legal, gemseo logs a warning) is only given to independent disciplines and
+  nobody reads it; the value returned is the one of the LAST producer in the order of the process that merges them: the listing
+  for ``MDOChain`` (sequential overwriting) and ``MDOParallelChain`` (its source: "update data according to input order of
+  priority", its Jacobian: "an output computed by several disciplines is the one of the last of them"), the flattened
+  execution sequence that the ``MDAChain`` itself exposes for an MDA chain (the order of the groups inside a stage is open, see
+  above) - i.e. a parallel chain must agree with the sequential chain of the same disciplines.  Multiprocessing
+  (``use_threading=False``: a pool of processes per execution) is enumerated in the thorough tier on <= 2 nodes only, and the
+  number of body runs cannot be observed there (the bodies run in child processes).
 * non-convergence of an inner MDA on these contractive systems is reported as its own invariant
   (``inner-mda-converged``); the data comparison is then skipped (C06 owns convergence).
 """
@@ -156,7 +179,7 @@ def _code(v: str) -> int:
     if k == "y":
         p = v[1:].split("_")
         return 4 * int(p[0]) + (int(p[1]) if len(p) > 1 else 5)
-    return {"s": 24, "o": 28, "x": 32, "p": 36, "q": 40}[k] + int(v[1:])
+    return {"s": 24, "o": 28, "x": 32, "p": 36, "q": 40, "d": 44}[k] + int(v[1:])
 
 
 def _size(v: str) -> int:
@@ -240,6 +263,43 @@ class Leaf(Body):
         self._blocks = self._consts = None
 
 
+class DupLeaf(Leaf):
+    """An independent node of the ``par`` family: the constant of every output depends on the node, so that two producers of
+    the same output name never agree (also when they read the same input)."""
+
+    @property
+    def consts(self):
+        if self._consts is None:
+            self._consts = {v: _const(v) + 2.5 * (self.i + 1) for v in self.outs}
+        return self._consts
+
+
+def expand_template(tedges, types):
+    """(n, edges, loops) of the graph obtained from a template: node t of type "W" is one weakly coupled node, "S" one node with
+    a self-loop, "P" two nodes a <-> b; a template edge u -> v goes from the last node of u to the first node of v."""
+    members, k = [], 0
+    for t in types:
+        members.append([k, k + 1] if t == "P" else [k])
+        k += len(members[-1])
+    edges, loops = [], []
+    for m, t in zip(members, types):
+        if t == "P":
+            edges += [[m[0], m[1]], [m[1], m[0]]]
+        elif t == "S":
+            loops.append(m[0])
+    edges += [[members[u][-1], members[v][0]] for u, v in tedges]
+    return k, sorted(edges), loops
+
+
+def template_graphs():
+    """Every labelled DAG on 3 template nodes x every typing with >= 2 groups needing an MDA and >= 1 pair, fewest nodes first."""
+    dags = [e for e, _ in graphs(3, False) if all(len(s) == 1 for s in sccs(3, [tuple(a) for a in e]))]
+    typings = [t for t in itertools.product("WSP", repeat=3) if sum(x != "W" for x in t) >= 2 and "P" in t]
+    for types in sorted(typings, key=lambda t: (t.count("P"), t)):
+        for tedges in dags:
+            yield "".join(types), expand_template(tedges, types)
+
+
 class Node:
     """Node i of the graph as gemseo sees it: a plain harness discipline or a process made of two harness halves.
 
@@ -311,6 +371,7 @@ def _gemseo():
         return _CLS
     from gemseo.core.chains.chain import MDOChain
     from gemseo.core.chains.initialization_chain import MDOInitializationChain, order_disciplines_from_default_inputs
+    from gemseo.core.chains.parallel_chain import MDOParallelChain
     from gemseo.core.coupling_structure import CouplingStructure
     from gemseo.core.discipline import Discipline
     from gemseo.mda.gauss_seidel import MDAGaussSeidel
@@ -343,7 +404,7 @@ def _gemseo():
             return self.body.f(input_data)
 
     _CLS.update(Harness=Harness, MDOChain=MDOChain, MDAChain=MDAChain, CouplingStructure=CouplingStructure,
-                MDAJacobi=MDAJacobi, MDAGaussSeidel=MDAGaussSeidel,
+                MDAJacobi=MDAJacobi, MDAGaussSeidel=MDAGaussSeidel, MDOParallelChain=MDOParallelChain,
                 MDOInitializationChain=MDOInitializationChain, order=order_disciplines_from_default_inputs)
     return _CLS
 
@@ -478,7 +539,8 @@ def identity_schedule_invalid(case):
     return any(i > j for i, j in case["edges"])
 
 
-SAMPLE_EDGES = {3: [[0, 1], [1, 0], [2, 0]], 4: [[0, 1], [1, 0], [2, 3], [3, 0], [3, 2]]}  # the cases written out as evidence samples
+SAMPLE_EDGES = {3: [[0, 1], [1, 0], [2, 0]], 4: [[0, 1], [1, 0], [2, 3], [3, 0], [3, 2]],  # the cases written out as evidence samples
+                5: [[0, 1], [1, 2], [2, 1], [2, 3], [3, 4], [4, 3]]}  # template WPP: W -> {a <-> b} -> {c <-> d}
 
 
 def core_key(case):
@@ -522,6 +584,25 @@ def _compare(out, ref, atol_of):
     return None
 
 
+def user_sub_structures(g, listed, objs, nodes, n, edges):
+    """What the documentation of ``sub_coupling_structures`` asks the user for: one ``CouplingStructure`` per group that needs an
+    inner MDA, in the order of the execution sequence.  Membership comes from the independent SCC oracle (a group of several
+    nodes, or a lone self-coupled node that is not itself an MDA), its members are given in listing order, and the order of the
+    groups is the one in which the execution sequence of a ``CouplingStructure`` of the same listing visits them (the only
+    way a user can know how the groups of one stage are ordered; its validity is checked by the structural oracle)."""
+    scc = sccs(n, edges)
+    index_of = {id(d): i for i, d in enumerate(objs)}
+    seen, subs = set(), []
+    for stage in g["CouplingStructure"](listed).sequence:
+        for grp in stage:
+            for d in grp:
+                i = index_of.get(id(d), -1)
+                if i >= 0 and scc[i] not in seen and (len(scc[i]) > 1 or (nodes[i].selfvars and not nodes[i].is_mda)):
+                    seen.add(scc[i])
+                    subs.append(g["CouplingStructure"]([o for o in listed if index_of[id(o)] in scc[i]]))
+    return subs
+
+
 def part_exec(case, tally):
     """MDOChain / MDAChain against the monolithic solve, for every listing permutation asked for."""
     g = _gemseo()
@@ -531,6 +612,8 @@ def part_exec(case, tally):
     nodes0 = system(case)
     n_proc = sum(nd.kind != "plain" for nd in nodes0)
     sig["nested"] = "+".join(sorted({nd.kind for nd in nodes0} - {"plain"})) or "none"
+    if case.get("subcs"):
+        sig["settings"] = "sub_coupling_structures"
     ref, kappa, r0, minf = monolithic([lf for nd in nodes0 for lf in nd.leaves])
     assert minf <= 0.45, minf  # the family is contractive by construction (Jacobi and Gauss-Seidel converge)
     znorm = math.sqrt(sum(float(v @ v) for v in ref.values()))
@@ -558,7 +641,7 @@ def part_exec(case, tally):
         obs["violations"].append({"invariant": inv, "process": proc, "listing": list(listing), "message": msg})
 
     for listing in perms:
-        procs = ["MDAChain"] + (["MDOChain"] if acyclic_plain else [])
+        procs = ["MDAChain"] + (["MDOChain"] if acyclic_plain and not case.get("subcs") else [])
         for proc in procs:
             dflt = "couplings"
             if case.get("initdef"):  # zero start only for the couplings pointing backwards in node order and the self-loops;
@@ -579,9 +662,12 @@ def part_exec(case, tally):
                     inner = []
                 else:
                     inner_settings = {"n_processes": 1} if case.get("inner", "MDAJacobi") == "MDAJacobi" and not case.get("threads") else {}
+                    extra = {}
+                    if case.get("subcs"):  # settings axis: the coupling structures of the inner MDAs are given by the user
+                        extra["sub_coupling_structures"] = user_sub_structures(g, listed, objs, nodes, n, edges)
                     chain = g["MDAChain"](listed, tolerance=TOL, max_mda_iter=MAX_ITER, inner_mda_name=case.get("inner", "MDAJacobi"),
                                           inner_mda_settings=inner_settings, mdachain_parallelize_tasks=bool(case.get("parallel")),
-                                          initialize_defaults=bool(case.get("initdef")))
+                                          initialize_defaults=bool(case.get("initdef")), **extra)
                     cs = chain.coupling_structure
                     inner = chain.inner_mdas
                 sbad, seq = check_structure(cs, objs, list(listing), case, nodes)
@@ -622,10 +708,11 @@ def part_exec(case, tally):
             obs["runs"].append({"process": proc, "listing": list(listing), "sequence": seq, "body_runs": runs,
                                 "data": {k: np.asarray(v).tolist() for k, v in sorted(out.items())}})
             tally.case((core_key(case), listing, proc, case.get("parallel"), case.get("threads"), case.get("inner"), case.get("initdef"),
-                        tuple(case.get("kinds") or ()), case.get("nested")),
+                        tuple(case.get("kinds") or ()), case.get("nested"), *(["subcs"] if case.get("subcs") else [])),
                        nontrivial=any(listing.index(i) > listing.index(j) for i, j in edges),
-                       outcome=f"{proc}:n{n}:{seq_outcome(seq)}:{'mda' if inner else 'chain'}" + (f":nested-{sig['nested']}" if n_proc else ""),
-                       sample={"case": case, "listing": list(listing), "sequence": seq, "body_runs": runs} if case["edges"] == SAMPLE_EDGES[3] and not loops and listing[0] == 2 else None)
+                       outcome=f"{proc}:n{n}:{seq_outcome(seq)}:{'mda' if inner else 'chain'}" + (f":nested-{sig['nested']}" if n_proc else "")
+                       + (f":subcs{len(inner)}" if case.get("subcs") else ""),
+                       sample={"case": case, "listing": list(listing), "sequence": seq, "body_runs": runs} if (case["edges"] == SAMPLE_EDGES[3] and not loops and listing[0] == 2) or (case.get("subcs") and case["edges"] == SAMPLE_EDGES[5]) else None)
     obs["reference"] = {k: v.tolist() for k, v in ref.items()}
     obs["bounds"] = {"mda": mda_bound, "rounding": eps_bound, "kappa": kappa}
     return obs
@@ -735,7 +822,99 @@ def part_init(case, tally):
     return obs
 
 
-PARTS = {"struct": part_struct, "exec": part_exec, "init": part_init}
+PAR_KINDS = {  # process kind -> (class, settings)
+    "MDOChain": ("MDOChain", {}),
+    "MDOParallelChain": ("MDOParallelChain", {}),  # threads, shared input data
+    "MDOParallelChain:deepcopy": ("MDOParallelChain", {"use_deep_copy": True}),
+    "MDOParallelChain:1worker": ("MDOParallelChain", {"n_processes": 1}),
+    "MDOParallelChain:processes": ("MDOParallelChain", {"use_threading": False}),  # thorough, <= 2 nodes (a pool of processes per execution)
+    "MDAChain": ("MDAChain", {}),
+    "MDAChain:parallel": ("MDAChain", {"mdachain_parallelize_tasks": True}),
+}
+DUP_SAMPLE = [["d0"], ["d0", "d1"], ["d1"]]
+
+
+def core_key_par(case):
+    return ("par", case["n"], tuple(map(tuple, case["dups"])), case.get("inputs", "own"), case["kind"], tuple(case["names"]))
+
+
+def part_par(case, tally):
+    """Independent disciplines, output names with 1..n producers, one process kind, every listing order asked for."""
+    g = _gemseo()
+    n, dups, kind = case["n"], case["dups"], case["kind"]
+    shared = case.get("inputs", "own") == "shared"
+    leaves = [DupLeaf(i, ["x0" if shared else f"x{i}"], [f"o{i}", *dups[i]], "") for i in range(n)]
+    xin = {"x0": _xval(0)} if shared else {f"x{i}": _xval(i) for i in range(n)}
+    vals = [lf.f(xin) for lf in leaves]  # the whole system evaluated at once: nobody reads an output of another node
+    producers = {}
+    for lf in leaves:
+        for v in lf.outs:
+            producers.setdefault(v, []).append(lf.i)
+    mult = max(map(len, producers.values()))
+    # the class that merges the outputs identifies the defect site; its settings / the inputs layout are in the case record
+    sig = {"part": "par", "process": kind if kind.startswith("MDAChain") else kind.split(":")[0]}
+    orders = case.get("orders", "all")
+    perms = list(itertools.permutations(range(n))) if orders == "all" else [tuple(p) for p in orders]
+    cls, settings = PAR_KINDS[kind]
+    obs = {"violations": [], "runs": []}
+
+    def viol(inv, listing, msg):
+        tally.violation({"invariant": inv, **sig}, {**case, "orders": [list(listing)]},
+                        f"{inv} [{kind}] listing={list(listing)}: {msg}\n  case={case}")
+        obs["violations"].append({"invariant": inv, "process": kind, "listing": list(listing), "message": msg})
+
+    for listing in perms:
+        while POOLED and len(_POOL) < n:
+            _POOL.append(g["Harness"](leaves[0], "pool", set()))
+        discs = [(_POOL[i].configure(lf, case["names"][i], set()) if POOLED else g["Harness"](lf, case["names"][i], set()))
+                 for i, lf in enumerate(leaves)]
+        listed = [discs[k] for k in listing]
+        index_of = {id(d): i for i, d in enumerate(discs)}
+        priority = list(listing)
+        try:
+            if cls == "MDAChain":
+                proc = g["MDAChain"](listed, tolerance=TOL, max_mda_iter=MAX_ITER, **settings)
+                # the order in which the MDA chain itself schedules the (independent) disciplines
+                priority = [index_of.get(id(d), -1) for stage in proc.coupling_structure.sequence for grp in stage for d in grp]
+                if sorted(priority) != list(range(n)):
+                    viol("each-discipline-exactly-once", listing, f"sequence={seq_indices(proc.coupling_structure.sequence, index_of)}")
+                    continue
+                if proc.inner_mdas:
+                    viol("inner-mdas-are-the-cyclic-groups", listing, f"{len(proc.inner_mdas)} inner MDAs over independent disciplines")
+            else:
+                proc = g[cls](listed, **settings)
+            out = proc.execute({k: v.copy() for k, v in xin.items()})
+            out = {k: np.array(v) for k, v in out.items()}
+        except Exception as e:
+            viol("execution-raises", listing, f"{type(e).__name__}: {str(e)[:300]}")
+            tally.case((core_key_par(case), listing), nontrivial=True, outcome=f"{kind}:raises")
+            continue
+        # the last producer in the order of the process wins (oracle boundary in the module docstring); the body performs the
+        # same floating-point operations whoever calls it, so only a few ulps are allowed
+        ref = {v: vals[[i for i in priority if i in who][-1]][v] for v, who in producers.items()}
+        bound = 8 * np.finfo(float).eps * (1.0 + max(float(np.max(np.abs(v))) for v in ref.values()))
+        msg = _compare(out, ref, bound)
+        if msg:
+            alt = {v: {i: vals[i][v].tolist() for i in who} for v, who in producers.items() if len(who) > 1}
+            viol("data-equals-whole-system-evaluation", listing, msg + f"\n  priority order of the process {priority}; values per producer {alt}")
+        for k, v in xin.items():
+            if k not in out or not np.array_equal(out[k], v):
+                viol("inputs-echoed-unchanged", listing, f"{k}: {out.get(k)} vs {v}")
+                break
+        runs = [d.n_run for d in discs]
+        if runs != [1] * n and not kind.endswith(":processes"):  # bodies run in child processes: their counters are not visible here
+            viol("each-body-runs-exactly-once", listing, f"body runs per harness discipline {dict(zip([d.name for d in discs], runs))}")
+        obs["runs"].append({"process": kind, "listing": list(listing), "priority": priority, "body_runs": runs,
+                            "data": {k: np.asarray(v).tolist() for k, v in sorted(out.items())}})
+        tally.case((core_key_par(case), listing), nontrivial=mult > 1,
+                   outcome=f"{kind}:n{n}:producers<={mult}:{'listing' if priority == list(listing) else 'reordered'}-priority",
+                   sample={"case": case, "listing": list(listing), "priority": priority, "data": obs["runs"][-1]["data"]}
+                   if dups == DUP_SAMPLE and listing == (2, 0, 1) and not shared else None)
+    obs["values_per_node"] = [{k: v.tolist() for k, v in d.items()} for d in vals]
+    return obs
+
+
+PARTS = {"struct": part_struct, "exec": part_exec, "init": part_init, "par": part_par}
 
 
 def _case(case, tally):
@@ -794,6 +973,64 @@ def cases(thorough: bool):
         for edges, lp in graphs(4, False):
             for orders in ("identity", "reversed"):
                 yield {"part": "exec", "n": 4, "edges": edges, "loops": lp, "names": name_patterns(4)["distinct"], "io": "full", "vars": "edge", "orders": orders}
+    # B2. MDAChain settings axis: user-given sub_coupling_structures (one per group needing an MDA, in execution order).
+    # Every graph on <= 3 nodes with at least one such group.  Several groups and a weakly coupled node (before / between /
+    # after the MDAs in the listing and in the schedule): every listing order.  quick: several groups without a weak node in
+    # listing order only, a single group (nothing to permute in the list of structures) on <= 2 nodes only.
+    for n in (1, 2, 3):
+        pats = name_patterns(n)
+        ident, rev = list(range(n)), list(reversed(range(n)))
+        for edges, lp in graphs(n, True):
+            scc = sccs(n, [tuple(e) for e in edges])
+            n_mda = len({s for i, s in enumerate(scc) if len(s) > 1 or i in lp})
+            weak = any(len(scc[i]) == 1 and i not in lp for i in range(n))
+            if not n_mda:
+                continue
+            base = {"part": "exec", "axis": "subcs", "subcs": True, "n": n, "edges": edges, "loops": lp, "names": pats["distinct"],
+                    "io": "full", "vars": "edge"}
+            if thorough or (n_mda > 1 and weak):
+                yield {**base, "orders": "all"}
+            elif n_mda > 1:
+                yield {**base, "orders": [ident]}
+            elif n <= 2:
+                yield {**base, "orders": [ident, rev][:n]}
+            if thorough and n_mda > 1:
+                for d in ({"inner": "MDAGaussSeidel"}, {"parallel": True}, {"names": pats.get("same", pats["distinct"])}):
+                    yield {**base, "orders": "all", **d}
+            if thorough and weak:  # the weak nodes are nested MDAs: self-coupled as seen from outside, but given no structure
+                yield {**base, "orders": "all", "kinds": ["mda" if len(scc[i]) == 1 and i not in lp else "plain" for i in range(n)]}
+    # ... and on the template family (4 to 6 nodes: W / S / P typings of every labelled DAG on 3 template nodes; the labelled
+    # DAGs already put the weak template node before / between / after the others in the listing as well as in the schedule).
+    # quick: the typings with a weak node, listing order; thorough: every listing order on 4 nodes and, for the typings
+    # with a weak node, on 5 nodes; otherwise listing order, its reverse and the rotation that lists the last node first
+    for types, (n, edges, lp) in template_graphs():
+        base = {"part": "exec", "axis": "subcs", "subcs": True, "n": n, "edges": edges, "loops": lp, "names": name_patterns(n)["distinct"],
+                "io": "full", "vars": "edge", "template": types}
+        ident, rev = list(range(n)), list(reversed(range(n)))
+        if not thorough:
+            if "W" in types:
+                yield {**base, "orders": [ident]}
+        elif n == 4 or (n == 5 and "W" in types):
+            for first in range(n):  # one record per first listed node (120 executions in one record could exceed the per-case timeout)
+                yield {**base, "orders": [list(p) for p in itertools.permutations(range(n)) if p[0] == first]}
+            yield {**base, "orders": [ident, rev], "parallel": True}
+        else:
+            yield {**base, "orders": [ident, rev, rev[:1] + ident[:-1]]}
+    # B3. process kind axis over independent disciplines whose output names have 1..n producers: every assignment of a subset of
+    # {d0, d1} to every node x every listing order x process kind x {own input, one shared input}
+    # (quick, 3 nodes: own inputs and the kinds MDOChain / MDOParallelChain / MDAChain with parallel stages)
+    for n in (1, 2, 3):
+        for dups in itertools.product([[], ["d0"], ["d1"], ["d0", "d1"]], repeat=n):
+            for inputs in ("own", "shared"):
+                if inputs == "shared" and (n == 1 or (n == 3 and not thorough)):
+                    continue
+                for kind in PAR_KINDS:
+                    if n == 3 and not thorough and kind not in ("MDOChain", "MDOParallelChain", "MDAChain:parallel"):
+                        continue
+                    if kind.endswith(":processes") and not (thorough and n <= 2):
+                        continue
+                    yield {"part": "par", "n": n, "dups": [list(d) for d in dups], "inputs": inputs, "kind": kind,
+                           "names": name_patterns(n)["distinct"], "orders": "all"}
     # C. initialisation order, n <= 3
     for n in (1, 2, 3):
         pats = name_patterns(n)
@@ -808,10 +1045,10 @@ def run(ctx):
     ALPHA = ctx.pick(ALPHABETS)
     _gemseo()
     only = getattr(ctx, "only", None)
-    todo = [c for c in cases(ctx.thorough) if not only or c["part"] == only]
+    todo = [c for c in cases(ctx.thorough) if not only or only in (c["part"], c.get("axis"))]
     counts = {}
     for c in todo:
-        k = f"{c['part']}:n{c['n']}"
+        k = f"{c['part']}{'/' + c['axis'] if c.get('axis') else ''}:n{c['n']}"
         counts[k] = counts.get(k, 0) + 1
     ctx.tally.notes["case_records"] = counts
     ctx.tally.notes["graphs"] = {f"n{n}{'+loops' if lp else ''}": sum(1 for _ in graphs(n, lp)) for n, lp in
@@ -827,16 +1064,29 @@ def run(ctx):
         "deviation (names / bare io / parallel stages / threaded Jacobi / Gauss-Seidel / initialize_defaults / shared producer variable) for execution; "
         "every non-empty subset of the nodes replaced by a nested MDA or by a nested MDOChain of two harness halves x every listing permutation ("
         + ("all graphs on <= 3 nodes, nested Jacobi and Gauss-Seidel" if ctx.thorough else "all graphs on <= 2 nodes and the loop-free graphs on 3 nodes, nested Jacobi") + "); "
-        "n<=3 graphs x 6 default-value patterns for the initialisation order.  A case is non-trivial when the listing order with one "
-        "discipline per stage would not be a valid schedule (some edge points backwards in the listing)",
+        "MDAChain settings axis {default, user-given sub_coupling_structures in execution order} over the graphs on <= 3 nodes with a group needing an MDA ("
+        + ("every graph x every listing order, + Gauss-Seidel / parallel stages / equal names when there are several groups" if ctx.thorough else
+           "several groups and a weakly coupled node: every listing order; several groups, no weak node: listing order; one group: <= 2 nodes")
+        + ") and over the W/S/P typings (>= 2 groups needing an MDA, >= 1 pair) of every labelled DAG on 3 template nodes ("
+        + ("4 nodes and 5 nodes with a weak node: every listing order; else listing order, reverse, rotation" if ctx.thorough else "typings with a weak node, 4 and 5 nodes, listing order")
+        + "); process kind axis over <= 3 independent disciplines writing any subset of two shared output names (4**n assignments) x every listing order x "
+        + ("{MDOChain, MDOParallelChain threads / deep copy / one worker (<= 2 nodes: processes), MDAChain sequential / parallel stages} x {own, shared input}" if ctx.thorough else
+           "{MDOChain, MDOParallelChain, MDAChain with parallel stages} (<= 2 nodes: all six kinds x {own, shared input})")
+        + "; n<=3 graphs x 6 default-value patterns for the initialisation order.  A case is non-trivial when the listing order with one "
+        "discipline per stage would not be a valid schedule (some edge points backwards in the listing); in the process kind axis when "
+        "some output name has several producers (first-wins and last-wins differ)",
         "exhaustive": True,
         "bounds": {"max_nodes_with_selfloops": 4 if ctx.thorough else 3, "max_nodes": 4, "execution_max_nodes": 4 if ctx.thorough else 3,
+                   "sub_coupling_structures_max_nodes": 6 if ctx.thorough else 5, "template_nodes": 3, "independent_disciplines_max": 3, "shared_output_names": 2,
                    "mda_tolerance": TOL, "alphabet": ALPHA["name"]},
         "assumptions": [
             "one variable per edge (or per producer), one producer per variable, self-loop variables private to their discipline",
             "affine disciplines with coupling gains in [0.04, 0.10] (||M||_inf <= 0.45); three value alphabets rotated by VERIF_SEED",
             "weak_couplings checked against its documented reading (all outputs of acyclic disciplines)",
             "order of groups inside a stage and the exact stage of a group are not constrained beyond strict precedence",
+            "an output name with several producers is only given to independent disciplines and read by nobody; the last producer in the order "
+            "of the merging process wins (listing for MDOChain / MDOParallelChain, the exposed execution sequence for MDAChain)",
+            "user-given sub_coupling_structures: membership from the SCC oracle, order of the groups from the execution sequence of a CouplingStructure of the same listing",
         ],
     }
 
